@@ -947,12 +947,23 @@ class Interp:
                     st2[f"$ret:{id(node.ast)}"] = NoneV()  # fell off the end of the callee
                 # leave the callee's scope: drop its locals, restore the caller's
                 saved = st2.pop(f"$saved:{id(node.ast)}", None)
+                binds = st2.pop(f"$bind:{id(node.ast)}", None) or {}
+                learned = {a: st2[p_] for p_, a in binds.items() if p_ in st2}
                 if saved is not None:
                     for nm, old in saved.items():
                         for k in [k for k in st2 if k == nm or k.startswith(nm + ".")]:
                             del st2[k]
                         for k, v in old.items():
                             st2[k] = v
+                # what the callee's tests established about a parameter it never rebinds holds
+                # for the caller's variable that was passed (integer ranges only)
+                for a, v in learned.items():
+                    cur = st2.get(a)
+                    if isinstance(v, IntV) and isinstance(cur, IntV):
+                        lo = v.lo if cur.lo is None else (cur.lo if v.lo is None else max(cur.lo, v.lo))
+                        hi = v.hi if cur.hi is None else (cur.hi if v.hi is None else min(cur.hi, v.hi))
+                        if lo is None or hi is None or lo <= hi:
+                            st2[a] = IntV(lo, hi)
                 return (st2, recs)
             if node.kind == "call_enter" and label == "call":
                 # bind the inlined callee's parameters to the abstract arguments
@@ -983,6 +994,8 @@ class Interp:
                         for k in saved[nm]:
                             del st[k]
                     st[f"$saved:{id(node.ast)}"] = saved
+                    stored = {x.id for x in walk(callee.node) if isinstance(x, ast.Name) and isinstance(x.ctx, ast.Store)}
+                    st[f"$bind:{id(node.ast)}"] = {p: a.id for p, a in b.items() if isinstance(a, ast.Name) and p not in stored}
                     for p, v in vals0.items():
                         st[p] = v
                         for suffix, vv in attr_facts.get(p, {}).items():
